@@ -111,6 +111,8 @@ honest_harness!(c02_q_xx_k1, 4, 4, 2, Pat::XX, 0, 1, false);
 honest_harness!(c02_q_n_k0_oneway_stateful, 4, 4, 2, Pat::N, 0, 0, false);
 honest_harness!(c02_q_ik_k0_p256shape, 5, 3, 2, Pat::IK, 0, 0, false);
 honest_harness!(c02_q_nnpsk0_k0, 4, 4, 2, Pat::NN, 1, 0, false);
+honest_harness!(c02_q_ix_k0_empty_payload, 4, 4, 0, Pat::IX, 0, 0, false);
+honest_harness!(c02_q_n_k0_oneway_stateless, 4, 4, 1, Pat::N, 0, 0, true);
 honest_harness!(c02_t_x_k0_oneway_stateless, 4, 4, 2, Pat::X, 0, 0, true);
 honest_harness!(c02_t_ik_k1_stateful, 4, 4, 2, Pat::IK, 0, 1, false);
 honest_harness!(c02_t_xxpsk3_k2, 4, 4, 1, Pat::XX, 8, 2, false);
